@@ -114,7 +114,7 @@ class Check:
         for c in C.REGISTRY.values():
             if not c.verify and c.target in getattr(eng, "assumed_contracts", set()):
                 self.assumptions.append(f"assumed contract (not proved): {c.target} - {c.note}")
-        timeout_s = timeout_s or (30 if self.tier == "quick" else 120)
+        timeout_s = timeout_s or (20 if self.tier == "quick" else 90)
         if "list.remove/ascending" in getattr(eng, "engine_lemmas", set()):
             from .lemmas import remove_lemmas
             from .engine import Obligation
@@ -165,7 +165,7 @@ class Check:
         from .engine import Obligation
         obs = [Obligation(oid=f"lemma/{lid}", kind="lemma", hyps=tuple(h), goal=g, target="lemma", probes=dict(p))
                for lid, h, g, p in lemma_list]
-        smt.discharge(obs, timeout_s=timeout_s or (30 if self.tier == "quick" else 120))
+        smt.discharge(obs, timeout_s=timeout_s or (20 if self.tier == "quick" else 90))
         self.obligations += obs
         return obs
 
